@@ -441,3 +441,157 @@ def check_C05(chk: Check, replay: str | None) -> None:
     model_check_codec(chk, "MC_Codec_thorough.cfg" if thorough else "MC_Codec_quick.cfg")
     replay_universe(chk, emit_universe(chk, "MC_Codec_emit2.cfg" if thorough else "MC_Codec_emit.cfg"), {"C05"})
     validate_rw(chk, 24 if thorough else 4, {"C05"})
+
+
+# --------------------------------------------------------------------------- probes (C06, C10)
+def _gen_inputs(chk: Check, per_class: int, seed_off: int, jobs: int = 16):
+    classes = project.all_entity_classes()
+    n = len(classes)
+    K = 16
+    slices = [(i * n // K, (i + 1) * n // K) for i in range(K)]
+    in_args = [(os.path.join(chk.scratch, f"pin{i}.json"), slices[i], per_class,
+                chk.seed + seed_off, True) for i in range(K)]
+    with mp.Pool(K) as pool:
+        ins = pool.map(codec_driver.gen_probe_inputs, in_args)
+    encoded = encode_with_spec(chk, [i["path"] for i in ins], jobs)
+    return n, ins, encoded
+
+
+def _validate_probes(chk: Check, infos: list[dict], canary_fn, jobs: int = 16):
+    with open(infos[0]["path"]) as f:
+        shard0 = json.load(f)
+    canaries = canary_fn(shard0["cases"])
+    shard0["cases"].extend(canaries)
+    codec_driver.write_shard(infos[0]["path"], shard0["schemas"], shard0["cases"])
+    res = tlc.validate_shards("ProbeTrace", [i["path"] for i in infos], jobs=jobs)
+    verdicts = {v["id"]: v for v in res["verdicts"]}
+    ncases = sum(i["cases"] for i in infos)
+    if len(verdicts) != ncases + len(canaries):
+        raise Machinery(f"{len(verdicts)} verdicts for {ncases + len(canaries)} cases")
+    for cc in canaries:
+        if not verdicts[cc["id"]]["fails"]:
+            raise Machinery(f"canary {cc['id']} was not rejected by ProbeTrace")
+    nprobes = sum(i["probes"] for i in infos)
+    chk.add_tlc("ProbeTrace", res, traces=nprobes)
+    return verdicts, len(canaries)
+
+
+def check_C06(chk: Check, replay: str | None) -> None:
+    chk.assumptions += ASSUMPTIONS + [
+        "a source that returns fewer bytes than asked only at end of data (a buffered stream at EOF)"]
+    chk.cov["rule"] = ("a case is (class, instance, cut position k): kio decodes the first k bytes of the "
+                       "specified encoding; all cuts when the encoding is short, else every cut within 2 "
+                       "bytes of a read boundary plus a seeded sample; distinct = distinct (class, value, k); "
+                       "every prefix is non-trivial (it is a strict prefix of a valid message)")
+    if replay:
+        raise Machinery("replay: re-run the check with the same VERIF_SEED")
+    thorough = chk.tier == "thorough"
+    model_check_codec(chk, "MC_Codec_thorough.cfg" if thorough else "MC_Codec_quick.cfg")
+    n, ins, encoded = _gen_inputs(chk, 8 if thorough else 2, 11)
+    args = [(ins[i]["path"], encoded[ins[i]["path"]], os.path.join(chk.scratch, f"tr{i}.json"),
+             chk.seed + 13, 4096 if thorough else 600) for i in range(len(ins))]
+    with mp.Pool(16) as pool:
+        infos = pool.map(codec_driver.gen_trunc_shard, args)
+
+    def canaries(cases):
+        donor = next(c for c in cases if len(c["probes"]) > 3)
+        out = []
+        for kind in ("outcome", "consumed"):
+            cc = copy.deepcopy(donor)
+            cc["id"] = "canary_" + kind
+            if kind == "outcome":
+                cc["probes"][2]["out"] = "returned"
+            else:
+                cc["probes"][2]["consumed"] = cc["probes"][2]["k"] + 1
+            out.append(cc)
+        return out
+
+    verdicts, ncan = _validate_probes(chk, infos, canaries)
+    chk.notes.append(f"{n} classes; {sum(i['probes'] for i in infos)} prefixes decoded; {ncan} canaries rejected")
+    for info in infos:
+        with open(info["path"]) as fh:
+            shard = json.load(fh)
+        for c in shard["cases"]:
+            if c["id"].startswith("canary_"):
+                continue
+            chk.count(len(c["probes"]))
+            for p in c["probes"][:: max(1, len(c["probes"]) // 50)]:
+                chk.distinct((c["sid"], c["id"], p["k"]))
+            if len(chk.cov["samples"]) < 2:
+                chk.sample({"sid": c["sid"], "value": c["value"], "encoding_runs": c["enc"][:40],
+                            "probes": c["probes"][:6]})
+            f = verdicts[c["id"]]["fails"]
+            if not f:
+                continue
+            if any(x["c"].startswith("harness_") or x["c"].startswith("spec_") for x in f):
+                raise Machinery(f"case {c['id']}: {f}")
+            for x in f[:3]:
+                p = c["probes"][x["p"] - 1]
+                chk.violation(f"{x['c']}:{p['exc'] or p['out']}",
+                              f"{c['sid']} case {c['id']}: prefix of {p['k']} bytes (of "
+                              f"{sum(n for _, n in c['enc'])}) -> {p['out']} {p['exc']} consumed={p['consumed']}",
+                              {"kind": "trunc", "sid": c["sid"], "value": c["value"], "k": p["k"]})
+    chk.cov["distinct_nontrivial"] = chk.cov["evaluations"]
+
+
+def check_C10(chk: Check, replay: str | None) -> None:
+    chk.assumptions += ASSUMPTIONS + [
+        "'time proportional to the input size' is checked as a bound on the number of read calls "
+        "(reads <= 2*len+2) and a step budget; wall-clock time and memory are not measured"]
+    chk.cov["rule"] = ("a case is (class, corrupted input): role-directed single/double overwrites, "
+                       "insertions, deletions of a valid encoding (read boundaries of kio's own decode are "
+                       "the roles: length prefixes, varint continuation bits, tags, markers) and random byte "
+                       "strings; distinct = distinct (class, input bytes)")
+    if replay:
+        raise Machinery("replay: re-run the check with the same VERIF_SEED")
+    thorough = chk.tier == "thorough"
+    model_check_codec(chk, "MC_Codec_thorough.cfg" if thorough else "MC_Codec_quick.cfg")
+    n, ins, encoded = _gen_inputs(chk, 6 if thorough else 2, 17)
+    args = [(ins[i]["path"], encoded[ins[i]["path"]], os.path.join(chk.scratch, f"mu{i}.json"),
+             chk.seed + 19, 80 if thorough else 20, 4) for i in range(len(ins))]
+    with mp.Pool(16) as pool:
+        infos = pool.map(codec_driver.gen_mut_shard, args)
+
+    def canaries(cases):
+        out = []
+        donor = next(c for c in cases if any(p["out"] == "raised" for p in c["probes"]))
+        cc = copy.deepcopy(donor)
+        cc["id"] = "canary_keyerror"
+        p = next(p for p in cc["probes"] if p["out"] == "raised")
+        p["mro"], p["serial"] = ["KeyError", "LookupError", "Exception", "BaseException", "object"], False
+        out.append(cc)
+        cc = copy.deepcopy(donor)
+        cc["id"] = "canary_reads"
+        cc["probes"][0]["reads"] = 3 * sum(n for _, n in cc["probes"][0]["b"]) + 10
+        out.append(cc)
+        return out
+
+    verdicts, ncan = _validate_probes(chk, infos, canaries)
+    outcomes: dict[str, int] = {}
+    for info in infos:
+        with open(info["path"]) as fh:
+            shard = json.load(fh)
+        for c in shard["cases"]:
+            if c["id"].startswith("canary_"):
+                continue
+            chk.count(len(c["probes"]))
+            for p in c["probes"]:
+                chk.distinct((c["sid"], json.dumps(p["b"])))
+                key = p["out"] if p["out"] != "raised" else p["mro"][0]
+                outcomes[key] = outcomes.get(key, 0) + 1
+            if len(chk.cov["samples"]) < 2:
+                chk.sample({"sid": c["sid"], "valid_encoding_runs": c["enc"][:40],
+                            "probes": [{k: p[k] for k in ("b", "out", "mro", "consumed", "reads")}
+                                       for p in c["probes"][:5]]})
+            f = verdicts[c["id"]]["fails"]
+            if not f:
+                continue
+            if any(x["c"].startswith("harness_") for x in f):
+                raise Machinery(f"case {c['id']}: {f}")
+            for x in f[:3]:
+                p = c["probes"][x["p"] - 1]
+                chk.violation(f"{x['c']}:{(p['mro'] or [p['out']])[0]}",
+                              f"{c['sid']} case {c['id']}: input {project.unruns(p['b']).hex()[:160]} -> "
+                              f"{p['out']} {p['exc']} consumed={p['consumed']} reads={p['reads']}",
+                              {"kind": "mut", "sid": c["sid"], "input": p["b"]})
+    chk.notes.append(f"{n} classes; outcome histogram {outcomes}; {ncan} canaries rejected")
